@@ -149,6 +149,24 @@ func (p *PKI) reloadCerts(c *config.C, initial bool) *util.ContextualError {
 		if newState.v2Cert != nil {
 			if currentState.v2Cert == nil {
 				//adding certs is fine, actually
+				if newState.v1Cert == nil {
+					//replacing a lone v1 cert with a lone v2 cert must not change who we are
+					if !slices.Equal(currentState.v1Cert.Networks(), newState.v2Cert.Networks()) {
+						return util.NewContextualError(
+							"Replacing a V1 cert is not permitted unless it has identical networks to the new V2 cert",
+							m{"new_v2_networks": newState.v2Cert.Networks(), "old_v1_networks": currentState.v1Cert.Networks()},
+							nil,
+						)
+					}
+
+					if currentState.v1Cert.Curve() != newState.v2Cert.Curve() {
+						return util.NewContextualError(
+							"Replacing a V1 cert is not permitted unless it has the same curve as the new V2 cert",
+							m{"new_curve": newState.v2Cert.Curve(), "old_curve": currentState.v1Cert.Curve(), "cert_version": cert.Version2},
+							nil,
+						)
+					}
+				}
 			} else {
 				// did IP in cert change? if so, don't set
 				if !slices.Equal(currentState.v2Cert.Networks(), newState.v2Cert.Networks()) {
@@ -178,6 +196,14 @@ func (p *PKI) reloadCerts(c *config.C, initial bool) *util.ContextualError {
 				return util.NewContextualError(
 					"Removing a V2 cert is not permitted unless it has identical networks to the new V1 cert",
 					m{"new_v1_networks": newState.v1Cert.Networks(), "old_v2_networks": currentState.v2Cert.Networks()},
+					nil,
+				)
+			}
+
+			if currentState.v2Cert.Curve() != newState.v1Cert.Curve() {
+				return util.NewContextualError(
+					"Removing a V2 cert is not permitted unless it has the same curve as the new V1 cert",
+					m{"new_curve": newState.v1Cert.Curve(), "old_curve": currentState.v2Cert.Curve(), "cert_version": cert.Version1},
 					nil,
 				)
 			}
